@@ -357,9 +357,46 @@ def _walk(st, pos, ext):
             assign_externals(body, f"{pos}/b{b}", ext)
 
 
+def add_deferred_callback(rng, g, body):
+    """create_callback at one place, result() somewhere else: later at top level or inside the branches of a later
+    map/parallel (the same callback may be awaited from two branches)."""
+    i = rng.randrange(0, len(body))
+    st = {"op": "cbdefer", "label": "L1"}
+    sc = g.ext("callback")
+    if sc["outcome"] == "timeout":
+        st["cfg"] = {"timeout": rng.choice([1, 3, 30])}
+        sc["outcome"] = "never"
+    elif rng.random() < 0.2:
+        st["cfg"] = {"timeout": rng.choice([900, 7200])}
+    st["_ext"] = sc
+    body.insert(i, st)
+
+    def waiter():
+        r = {"op": "cbresult", "ref": "L1"}
+        if rng.random() < 0.7:
+            return {"op": "try", "stmt": r, "catch": ["CallableRuntimeError", "CallbackError"] + USER_ERRS, "handler": []}
+        return r
+
+    later = []
+    for j in range(i + 1, len(body)):
+        s_ = body[j]["stmt"] if body[j]["op"] == "try" else body[j]
+        if s_["op"] == "parallel":
+            later.append([b["body"] for b in s_["branches"]])
+        elif s_["op"] == "map" and "bodies" in s_:
+            later.append(s_["bodies"])
+    if later and rng.random() < 0.65:
+        bodies = rng.choice(later)
+        for b in rng.sample(bodies, min(len(bodies), rng.choice([1, 1, 2]))):
+            b.insert(rng.randrange(0, len(b) + 1), waiter())
+    else:
+        body.insert(rng.randrange(i + 1, len(body) + 1), waiter())
+
+
 def gen_program(rng, prof):
     g = Gen(rng, prof)
     body = g.seq(0, False, lo=prof.get("top_lo", 2), hi=prof.get("top_hi", 6))
+    if g.w.get("callback", 0) > 0 and rng.random() < prof.get("cbdefer_p", 0.12):
+        add_deferred_callback(rng, g, body)
     ext = {}
     assign_externals(body, "r", ext)
     return {"body": body}, ext
